@@ -4,7 +4,7 @@ import ast
 from ..core import sym
 from ..core.expand import u, call_name, get_arg, bind_args, Expander, is_marker, phi_alternatives
 from ..core.loader import Inconclusive, const_value, parents, walk_scope
-from .common import (guard_dnf, literal_nf, returns, all_nodes, callee, strip_shape, calls_in, guards_of, stmt_of, loops_around, kw,
+from .common import (holds_on_every_path, guard_dnf, literal_nf, returns, all_nodes, callee, strip_shape, calls_in, guards_of, stmt_of, loops_around, kw,
                      find_assignments, in_loop)
 
 EXPLANATION = (
@@ -375,7 +375,7 @@ def _mutators(P, family):
                         stores.append(n)
                 if not stores:
                     continue
-                guarded = 'in_place' in m.params and all(any(isinstance(t, ast.Name) and t.id == 'in_place' and pol for t, pol in guards_of(s_, m.node))
+                guarded = 'in_place' in m.params and all(holds_on_every_path(s_, 'in_place', m.node)
                                                           for s_ in stores)
                 out[name] = 'in_place' if guarded else 'always'
                 changed = True
